@@ -1,6 +1,7 @@
 import PysamlModel.Core.Proto
 import PysamlModel.Model.Encrypt
 import PysamlModel.Spec.C16
+import PysamlModel.Gen.EncryptDefaults
 open Lean Proto Encrypt
 
 /-- key pairs of harness/keys by name; 0 = unknown -/
@@ -35,29 +36,71 @@ def parseCertArg (j : Json) (k : String) : CertArg :=
   | some "garbage" => .cert 0 false
   | some s => .cert (keyId (if s.startsWith "pem:" then (s.drop 4).toString else s)) true
 
-def parseOptsTri (j : Json) : Opts Tri :=
-  { signResponse := bool? j "sign_response", signAssertion := bool? j "sign_assertion",
-    encryptAssertion := bool? j "encrypt_assertion", encryptedAdvice := bool? j "encrypted_advice_attributes",
-    selfContained := bool? j "encrypt_assertion_self_contained" }
+/-- a configuration value: true / false, also in the textual forms "true" / "false" `Config.load_special`
+    normalises; anything else (null, absent) = not configured -/
+def cfgTri (j : Json) (k : String) : Tri :=
+  match j.getObjVal? k with
+  | .ok (.bool b) => some b
+  | .ok (.str "true") => some true
+  | .ok (.str "false") => some false
+  | _ => none
+
+def parseCfg (j : Json) : Opts Tri :=
+  { signResponse := cfgTri j "sign_response", signAssertion := cfgTri j "sign_assertion",
+    encryptAssertion := cfgTri j "encrypt_assertion", encryptedAdvice := cfgTri j "encrypted_advice_attributes",
+    selfContained := cfgTri j "encrypt_assertion_self_contained" }
+
+/-- a keyword argument as the caller wrote it: "omit" (or absent) = omitted, null = None, true / false -/
+def givenArg (j : Json) (k : String) : Option Tri :=
+  match j.getObjVal? k with
+  | .ok (.bool b) => some (some b)
+  | .ok .null => some none
+  | _ => none
+
+def parseGiven (j : Json) : Opts (Option Tri) :=
+  { signResponse := givenArg j "sign_response", signAssertion := givenArg j "sign_assertion",
+    encryptAssertion := givenArg j "encrypt_assertion", encryptedAdvice := givenArg j "encrypted_advice_attributes",
+    selfContained := givenArg j "encrypt_assertion_self_contained" }
 
 def parseOptsBool (j : Json) : Opts Bool :=
   { signResponse := boolD j "sign_response", signAssertion := boolD j "sign_assertion",
     encryptAssertion := boolD j "encrypt_assertion", encryptedAdvice := boolD j "encrypted_advice_attributes",
     selfContained := boolD j "encrypt_assertion_self_contained" }
 
-def parseCall (c : Json) : Call :=
+def parseEntry (c : Json) : Entry :=
+  match strD c "entry" "direct" with
+  | "request_response" => .requestResponse
+  | "ecp" => .ecp
+  | _ => .direct
+
+def genSig : Opts Tri :=
+  ⟨Gen.EncryptDefaults.signResponse, Gen.EncryptDefaults.signAssertion, Gen.EncryptDefaults.encryptAssertion,
+   Gen.EncryptDefaults.encryptedAdvice, Gen.EncryptDefaults.selfContained⟩
+
+/-- `useProp = true`: omitted arguments stand for the PROPERTY's signature defaults (what the specification
+    means by "requested"); `false`: for the defaults of the current source (what the model follows). -/
+def parseCall (c : Json) (useProp : Bool) : Call :=
   let fl := (obj? c "flags").getD (Json.mkObj [])
-  { kw := parseOptsTri fl
-    cfg := parseOptsTri ((obj? c "idp_cfg").getD (Json.mkObj []))
+  let e := parseEntry c
+  let direct := e == .direct
+  let sig := if useProp then propSig else genSig
+  let (wsr, wsa) : Tri × Tri :=
+    if useProp then (none, none)
+    else if e == .ecp then (Gen.EncryptDefaults.ecpSignResponse, Gen.EncryptDefaults.ecpSignAssertion)
+    else (Gen.EncryptDefaults.rrSignResponse, Gen.EncryptDefaults.rrSignAssertion)
+  let pefimDefault := if useProp then false else Gen.EncryptDefaults.pefim.getD false
+  { kw := kwOf e sig wsr wsa (parseGiven fl)
+    cfg := parseCfg ((obj? c "idp_cfg").getD (Json.mkObj []))
     dflt := parseOptsBool ((obj? c "defaults").getD (Json.mkObj []))
-    pefim := boolD fl "pefim"
-    certAssertion := parseCertArg c "cert_assertion"
-    certAdvice := parseCertArg c "cert_advice"
+    -- the wrappers swallow pefim and the certificates
+    pefim := if direct then (bool? fl "pefim").getD pefimDefault else pefimDefault
+    certAssertion := if direct then parseCertArg c "cert_assertion" else .none
+    certAdvice := if direct then parseCertArg c "cert_advice" else .none
     md := (arrD c "md_keys").filterMap parseMdKey
     extraAdvice := (obj? c "advice_identity").isSome }
 
 /-- The recipient's side of the case: configuration, clock, outstanding request; the issued content. -/
-def parseInput (c : Json) : Input :=
+def parseInput (c : Json) (useProp : Bool := false) : Input :=
   let sp := (obj? c "sp").getD (Json.mkObj [])
   let d := (obj? c "sp_defaults").getD (Json.mkObj [])
   let now := intD c "now"
@@ -66,7 +109,8 @@ def parseInput (c : Json) : Input :=
   let acs := strD c "acs"
   let me := strD c "sp_entity_id"
   let solicited := boolD sp "solicited" true
-  { call := parseCall c
+  { call := parseCall c useProp
+    ecp := parseEntry c == .ecp
     rc := { explicitKeys := (strList sp "explicit_keys").map keyId, configured := (strList sp "enc_keys").map keyId }
     tamper := (str? c "tamper").isSome
     cfg := { wantResp := (bool? sp "want_resp").getD (boolD d "want_response_signed"),
@@ -153,7 +197,7 @@ def parseObs (j : Json) : Obs :=
 def obsToJson (i : Input) (o : Obs) : Json :=
   if !o.issued then Json.mkObj [("idp", "refused"), ("ops", jarr [])] else
   let spJ : Json :=
-    match createAuthnResponse i.call with
+    match i.issue with
     | .error _ => Json.null
     | .ok iss =>
       match i.outcome iss.wire with
@@ -166,7 +210,7 @@ def obsToJson (i : Input) (o : Obs) : Json :=
     ("tampered", o.tampered), ("sp", spJ)]
 
 def refusalS : Refusal → String
-  | .noUsableCert => "no-usable-cert" | .parseObject => "parse-object"
+  | .noUsableCert => "no-usable-cert" | .parseObject => "parse-object" | .ecpNeedsObject => "ecp-needs-object"
 
 def errS : Sp.Err → String
   | .sigMissingResponse => "sigMissingResponse" | .sigBadResponse => "sigBadResponse"
@@ -176,7 +220,7 @@ def errS : Sp.Err → String
 
 /-- model branch id: IdP side / recipient side -/
 def pathOf (i : Input) : String :=
-  match createAuthnResponse i.call with
+  match i.issue with
   | .error e => "idp:refused/" ++ refusalS e
   | .ok iss =>
     let t := iss.trace
@@ -196,18 +240,20 @@ def pathOf (i : Input) : String :=
     "idp:" ++ idp ++ " | rcpt:" ++ rc ++ " | " ++ out
 
 def handleOne (c impl : Json) : Json :=
-  let i := parseInput c
+  let i := parseInput c            -- the model follows the current source
+  let ip := parseInput c true      -- the specification reads "requested" with the property's constants
   let m := observe i
   let io := parseObs impl
-  let failing := ((specClauses i io).filter (fun p => !p.2)).map (·.1)
-  Json.mkObj [("model", obsToJson i m), ("path", pathOf i),
-    ("spec_model", spec i m), ("spec_impl", spec i io), ("why", jstrs failing),
-    ("classes", Json.mkObj [("early", earlyReturnClass i.call), ("object_form", objectFormClass i.call),
-                            ("well_posed", wellPosed i.call), ("plain_accepted", plainAccepted i)])]
+  let failing := ((specClauses ip io).filter (fun p => !p.2)).map (·.1)
+  let src := match parseEntry c with | .direct => "" | .requestResponse => "via-request-response " | .ecp => "via-ecp "
+  Json.mkObj [("model", obsToJson i m), ("path", Json.str (src ++ pathOf i)),
+    ("spec_model", spec ip m), ("spec_impl", spec ip io), ("why", jstrs failing),
+    ("classes", Json.mkObj [("early", earlyReturnClass ip.call), ("object_form", objectFormClass ip.call),
+                            ("well_posed", wellPosed ip.call), ("plain_accepted", plainAccepted ip)])]
 
 /-- short branch id of one step of a history -/
 def shortPath (i : Input) : String :=
-  match createAuthnResponse i.call with
+  match i.issue with
   | .error _ => "refused"
   | .ok iss =>
     let s := receive i.rc (i.sent iss.wire)
@@ -218,7 +264,8 @@ def shortPath (i : Input) : String :=
     force at that step.  The model answers every step on its own (it is stateless); the specification of the
     history is `specHistory`. -/
 def handleHistory (steps impls : List Json) : Json :=
-  let inputs := steps.map parseInput
+  let inputs := steps.map (fun c => parseInput c)
+  let inputsP := steps.map (fun c => parseInput c true)
   let ios := impls.map parseObs
   let ms := observeHistory inputs
   let per := (steps.zip impls).map (fun p => handleOne p.1 p.2)
@@ -226,7 +273,7 @@ def handleHistory (steps impls : List Json) : Json :=
   let anyClass (k : String) : Bool := per.any (fun r => boolD ((obj? r "classes").getD Json.null) k)
   Json.mkObj [("model", Json.mkObj [("steps", jarr (per.map (fun r => (obj? r "model").getD Json.null)))]),
     ("path", Json.str ("history " ++ " > ".intercalate (inputs.map shortPath))),
-    ("spec_model", specHistory inputs ms), ("spec_impl", specHistory inputs ios), ("why", jstrs why),
+    ("spec_model", specHistory inputsP ms), ("spec_impl", specHistory inputsP ios), ("why", jstrs why),
     ("classes", Json.mkObj [("early", anyClass "early"), ("object_form", anyClass "object_form"),
                             ("well_posed", anyClass "well_posed"), ("history", true)])]
 
